@@ -316,7 +316,7 @@ func cover(args []string) {
 }
 
 var classReps = []byte(" \n{}[],:\"\\/bfnrtualseE01-+.x\x01\x7f\x80cA")
-var embeddings = [][2]string{{"[\"abcd\",\n ", "]"}, {"{\"kkkk\":\"ab\\ncd\",\"x\":[12.5e3,\n", "]}"}}
+var embeddings = [][2]string{{"[\"abcd\",\n ", "]"}, {"{\"kkkk\":\"ab\\ncd\",\"x\":[12.5e3,\n", "]}"}, {"[\"\\u0041\\ud83d\\ude00\",true,-0.5E-2 ,", "]"}}
 var confusions = []string{"0", "1]", "1}", "\"\":0", ":0", "\"", "\":0", ",0", ",\"\":0", "ull", "rue", "alse", ".5", "e1", "5"}
 
 // ---------------------------------------------------------------- random
